@@ -4,6 +4,7 @@
 # (VERIF_REPO / VERIF_OUT), leaving /repo and /verif/evidence untouched.  The registered way (apply to /repo, run, revert)
 # is tools/try_seed.sh / tools/run_seeded.sh.
 res="$1"; shift
+VH="${VERIF_HOME:-$(cd "$(dirname "$0")/.." && pwd)}"
 for spec in "$@"; do
   sd="${spec%%:*}"; props="${spec##*:}"
   wt=/tmp/wt_seedrun_$$
@@ -15,7 +16,7 @@ for spec in "$@"; do
   mut_demo=$(PYTHONPATH=$wt timeout 180 /venv/bin/python $sd/demo.py >/dev/null 2>&1; echo $?)
   echo "SEED $sd demo clean=$clean_demo mutated=$mut_demo tests: $tests" >> $res
   for p in ${props//,/ }; do
-    out=$(cd /verif && VERIF_REPO=$wt VERIF_OUT=/tmp/seedout PYTHONDONTWRITEBYTECODE=1 PYTHONPATH=/verif:$wt timeout 1500 python3-vt -m pyvc.check --property $p --tier quick 2>&1)
+    out=$(cd $VH && VERIF_REPO=$wt VERIF_OUT=/tmp/seedout_$$ PYTHONDONTWRITEBYTECODE=1 PYTHONPATH=$VH:$wt timeout 1500 python3-vt -m pyvc.check --property $p --tier quick 2>&1)
     rc=$?
     nviol=$(echo "$out" | grep -c '^VIOLATION')
     echo "  CHECK $p on $sd: exit=$rc violations=$nviol :: $(echo "$out" | grep '^VIOLATION' | head -2 | sed 's/.*replay=[^ ]*replays.//' | tr '\n' ' ' | cut -c1-300)" >> $res
@@ -23,4 +24,5 @@ for spec in "$@"; do
   done
   cd /; git -C /repo worktree remove --force $wt
 done
+rm -rf /tmp/seedout_$$
 echo DONE >> $res
